@@ -152,6 +152,55 @@ Definition p_link (k : option uent) (a b : uent) (x : Q) : res :=
       end
   end.
 
+(** ** A link through an adapter that changes the units (SDK adapter overriding [_get_info]):
+       output declared in [a] (data published as Quantity(x, k) or bare), the adapter asks upstream with
+       units=None (Output.get_info then makes no unit check) and delivers the same numbers labelled [d];
+       the consumer declares [b].  The ONLY unit check of the connect phase is the input's own
+       [info.accepts(src_info)] = compatible_units(b, d) (input.py exchange_info, FinamMetaDataError).
+       Pull: Output data -> adapter relabels -> Adapter.get_data runs prepare(data, output_info)
+       (adapter.py 219-227) -> Input: to_units(.., check_equivalent=True), check. *)
+Definition m_alink (c : cache) (k : option uent) (a d b : uent) (x : Q) : res * cache :=
+  let '(ok, c1) := m_accepts c b d in
+  if negb ok then (RErr ErrMeta, c1) else
+  let '(st, c2) := match k with
+                   | None => (inl (a, false, x), c1)
+                   | Some k => m_prepare c1 k a x
+                   end in
+  match st with
+  | inr e => (RErr e, c2)
+  | inl (se, cs, xs) =>
+      let '(ad, c3) := m_prepare c2 d d xs in
+      match ad with
+      | inr e => (RErr e, c3)
+      | inl (de, cd, xd) =>
+          let '(g, c4) := m_to_units c3 de b true xd in
+          match g with
+          | inr e => (RErr e, c4)
+          | inl (ge, cv, xg) =>
+              let '(r5, c5) := query c4 b ge in
+              if negb (fst r5) then (RErr ErrData, c5)
+              else (RLink (cid se) cs xs (cid ge) (cs || cd || cv) xg, c5)
+          end
+      end
+  end.
+
+Definition p_alink (k : option uent) (a d b : uent) (x : Q) : res :=
+  if negb (compatible (uu b) (uu d)) then RErr ErrMeta else
+  match (match k with None => inl (a, false, x) | Some k => p_prepare k a x end) with
+  | inr e => RErr e
+  | inl (se, cs, xs) =>
+      match p_prepare d d xs with
+      | inr e => RErr e
+      | inl (de, cd, xd) =>
+          match p_to_units de b true xd with
+          | inr e => RErr e
+          | inl (ge, cv, xg) =>
+              if negb (compatible (uu b) (uu ge)) then RErr ErrData
+              else RLink (cid se) cs xs (cid ge) (cs || cd || cv) xg
+          end
+      end
+  end.
+
 (** ** Masked arrays: a mask hides cells, it does not change numbers.  (prepare wraps the payload
        with the Info's mask, core.py 73-82; the harness judges every unmasked cell with the scalar ops.) *)
 Fixpoint mask_with (m : list bool) (l : list Q) : list (option Q) :=
@@ -169,7 +218,8 @@ Inductive op :=
 | Accepts (a b : uent)
 | ToUnits (a b : uent) (chk : bool) (x : Q)
 | Prepare (a b : uent) (x : Q)
-| Link (k : option uent) (a b : uent) (x : Q).
+| Link (k : option uent) (a b : uent) (x : Q)
+| ALink (k : option uent) (a d b : uent) (x : Q).   (* link through a unit-changing adapter *)
 
 Definition step (c : cache) (o : op) : res * cache :=
   match o with
@@ -181,6 +231,7 @@ Definition step (c : cache) (o : op) : res * cache :=
   | ToUnits a b chk x => let '(r, c1) := m_to_units c a b chk x in (res_of r, c1)
   | Prepare a b x => let '(r, c1) := m_prepare c a b x in (res_of r, c1)
   | Link k a b x => m_link c k a b x
+  | ALink k a d b x => m_alink c k a d b x
   end.
 
 (** the answer by dimensional analysis alone: no memo, no history *)
@@ -194,6 +245,7 @@ Definition pure_res (o : op) : res :=
   | ToUnits a b chk x => res_of (p_to_units a b chk x)
   | Prepare a b x => res_of (p_prepare a b x)
   | Link k a b x => p_link k a b x
+  | ALink k a d b x => p_alink k a d b x
   end.
 
 Fixpoint run (c : cache) (ops : list op) : list res :=
@@ -215,6 +267,8 @@ Definition op_ents (o : op) : list uent :=
   | Compat a b | Equiv a b | Same a b | Accepts a b | ToUnits a b _ _ | Prepare a b _ => [a; b]
   | Link None a b _ => [a; b]
   | Link (Some k) a b _ => [k; a; b]
+  | ALink None a d b _ => [a; d; b]
+  | ALink (Some k) a d b _ => [k; a; d; b]
   end.
 Definition ops_ents (ops : list op) : list uent := flat_map op_ents ops.
 
@@ -349,6 +403,12 @@ Definition slacks (o : op) (m : res) : Q * Q :=
           (* the held data is labelled [a] when converted or bare, [k] otherwise *)
           let se := match k with Some k => if cs then a else k | None => a end in
           (s1, slack (uu se) (uu b) xs + s1 * factor (uu se) / factor (uu b))
+      | _ => (s1, 0)
+      end
+  | ALink k a d b x =>
+      let s1 := match k with Some k => slack (uu k) (uu a) x | None => 0 end in
+      match m with
+      | RLink _ _ xs _ _ _ => (s1, slack (uu d) (uu b) xs + s1 * factor (uu d) / factor (uu b))
       | _ => (s1, 0)
       end
   | _ => (0, 0)
